@@ -2,5 +2,5 @@ From VD Require Import Base.Words Extract.Dispatch.
 Require Extraction.
 Require Import ExtrOcamlBasic.
 Extraction Language OCaml.
-Extraction "model.ml" Dispatch.step Dispatch.is_monitor Dispatch.MNone
+Extraction "model.ml" Dispatch.step Dispatch.is_monitor Dispatch.is_diag Dispatch.MNone
   N.add N.mul N.div_eucl N.eqb N.of_nat.
